@@ -23,7 +23,24 @@ CONFIG = dict(
              'of 8; the last rows / columns / entries are never empty; cell values periodic with periods 2^k and 2^k+-1, cells at 2^31 and '
              '2^32-1, rows whose stored cells sum to exact multiples of 2^32). Kinds ending in -xl (sizes above 4100 on the axes where the list '
              'model is quadratic: map insertion, CSR slices) and histories wider than 8200 cells (Coq List.rev is quadratic) are judged by the '
-             'property oracle only: decoded == extracted normalise(input), extracted shape oracle on the printed grids. Non-trivial: burndown = a non-zero global cell and more than one cell, file or developer; '
+             'property oracle only: decoded == extracted normalise(input), extracted shape oracle on the printed grids. '
+             'Content family (round 4; kinds ct-*, harness/cmd/c17/content.go): ct-bd-name / ct-dv-name / ct-cp-name = file, developer and '
+             'language names taken from GROUPS of valid UTF-8 names that a normalisation would make equal, the members of a group together in '
+             'one result (U+FFFD as real content next to ? and to its neighbours U+FFFC / U+FFFE / U+FFFF, BOMs and invisible characters, '
+             'ASCII and Unicode white space incl. NBSP / U+2028 / U+3000, LF / CRLF / lone CR, NUL and control bytes, case variants incl. '
+             'dotless i / Kelvin sign / sharp s, composed and decomposed forms, spellings of one path, common prefixes and suffixes incl. '
+             'noreply e-mails with and without the numeric id, hash-like names agreeing in 1 / 2 / 4 / 7 / 8 hex digits, numbered names at the '
+             'widths 9 | 10 | 11 .. 1001, YAML scalars and indicators, names of 127 / 128 / 129 / 16383 / 16384 bytes), every group whole, every '
+             'member alone and next to its neighbour, random mixtures of two groups; tick sizes 1 ns, 1 s, 1 h, 7 d, 30 d, odd values and the '
+             'int64 extremes rotate through these results; couples with and without the named pseudo-developer. ct-*-badutf8 = the same results '
+             'with one name that is NOT valid UTF-8 (lone lead / continuation bytes, Latin-1, overlong forms, surrogates, > U+10FFFF, truncated '
+             'sequences) among them: outside the domain (proto3 Marshal refuses them), the driver only checks that binary Serialize returns an '
+             'error (hand-written RFC 3629 predicate in the driver; a sanitiser shows as a mismatch). ct-mx-dec / ct-bd-dec = cells at the '
+             'decimal widths 10^k - 1, 10^k, 10^k + 1 (k = 1 .. 18 for bare matrices and the interaction matrix, k <= 9 for history cells), both '
+             'signs, both values of fixNegative, 18 templates each (the cell as the widest of the matrix or not, first / inner / last column, '
+             'first / later row, next to cells with one digit less, with clamped negatives and trailing zeros), in the project, file, developer and '
+             'interaction matrices of one result at once; a printed row that is not a sequence of integers (glued cells) is a property failure. '
+             'ct-*-cnt = the sizes 10, 99, 100, 101 on every size axis of the scale family. Non-trivial: burndown = a non-zero global cell and more than one cell, file or developer; '
              'devs = at least one (tick, developer) entry; couples = at least one file and one non-empty matrix row; matrix = non-zero and '
              'more than one cell. Distinct = distinct input value.',
         exhaustive_note='every matrix with 1..2 rows and 0..3 columns (2x3 only in the thorough tier) over the cells {-1, 0, 1, 2^32-1} through '
@@ -36,7 +53,9 @@ CONFIG = dict(
             'exercised on every harness case (the bytes are decoded both by Deserialize and, independently, into the message that is '
             'compared with the model\'s message image). proto.Marshal refusing a nil element of a repeated field is modelled as the error '
             'result of encode_burndown.',
-            'a Go string is the list of its bytes; names are valid UTF-8 in all in-domain streams (proto3 strings)',
+            'a Go string is the list of its bytes; names are valid UTF-8 in all in-domain streams (proto3 strings): a result with a file, developer '
+            'or language name that is not valid UTF-8 (git enforces no encoding of paths and signatures) cannot be written in the binary format at '
+            'all - gogo Marshal returns an error (stream ct-*-badutf8 checks exactly this outcome); the text format writes the bytes as they are',
             'a Go map is modelled by its canonical association list (keys strictly increasing; bytewise order for strings); nil and empty '
             'maps, nil and empty slices are identified, except BurndownResult.PeopleMatrix where the code tests for nil',
             'Go int is 64 bit; time.Duration is an int64, so int64(tickSize) converts nothing',
@@ -81,5 +100,6 @@ CONFIG = dict(
         technique='machine-checked proof in Coq over a Gallina model (canonical-map library with permutation/sortedness argument, codec '
                   'lemmas composed per result type) + model/implementation correspondence replay with extracted model and oracles '
                   '(decoded == extracted normalise(input); extracted text-shape check) + scale family (every size axis at 7 .. 10^5, oracle-only '
-                  'judgement where the list model is quadratic)',
+                  'judgement where the list model is quadratic) + content family (name groups that a normalisation would collapse, invalid UTF-8, '
+                  'cells at every decimal width)',
     )
